@@ -161,6 +161,16 @@ M = {
   ('super ignore dropped when derived declares ignore', 'sourcer/translator.py', "        if super_has_ignore:\n            super_ignored = Ref('super._ignored')", "        if super_has_ignore and len(ignored) < 1:\n            super_ignored = Ref('super._ignored')"),
   ('module installed before compile (name reuse)', 'sourcer/grammar.py', "    if parsed.name:\n        _install_module(name, module)\n\n    return module", "    if parsed.name:\n        _install_module(name, module)\n        if parsed.extends is not None:\n            _install_module(parsed.extends.name, module)\n\n    return module"),
  ],
+ 'C17': [
+  ('seq num_blocks 0', 'sourcer/expressions/seq.py', "    is_commented = False\n    num_blocks = 2\n", "    is_commented = False\n    num_blocks = 0\n"),
+  ('has_available_blocks() without count', 'sourcer/expressions/base.py', "        if not out.has_available_blocks(self.num_blocks):", "        if not out.has_available_blocks():"),
+  ('revert F20', 'sourcer/expressions/base.py', "            out += (STATUS, RESULT, POS) << Code('(yield from ', func(*params), ')')", "            out += (STATUS, RESULT, POS) << func(*params)"),
+  ('helper forgets ctx in named grammars', 'sourcer/expressions/base.py', "        extras = ['_ctx'] if flags.uses_context else []\n        params = extras + [str(TEXT), str(POS)] + list(sorted(self.freevars()))", "        extras = ['_ctx'] if flags.uses_context and not is_generator else []\n        params = extras + [str(TEXT), str(POS)] + list(sorted(self.freevars()))"),
+  ('let num_blocks 0', 'sourcer/expressions/let.py', "    defines_local = True\n    num_blocks = 1", "    defines_local = True\n    num_blocks = 0"),
+  ('list num_blocks 1', 'sourcer/expressions/list.py', "class List(Expression):\n    num_blocks = 2", "class List(Expression):\n    num_blocks = 1"),
+  ('spilled helper loses result on failure', 'sourcer/expressions/base.py', "                method = out.YIELD if is_generator else out.RETURN\n                method((STATUS, RESULT, POS))", "                method = out.YIELD if is_generator else out.RETURN\n                method((STATUS, RESULT, POS) if is_generator else Code('(', STATUS, ', ', RESULT, ' if ', STATUS, ' else None, ', POS, ')'))"),
+  ('run recursion for nested calls', 'sourcer/translator.py', "            gtor = result[1](${ctx}text, result[2])\n            stack.append((result, gtor))\n            result = None", "            if len(stack) % 2500 == 2499:\n                raise RecursionError('maximum parse depth exceeded')\n            gtor = result[1](${ctx}text, result[2])\n            stack.append((result, gtor))\n            result = None"),
+ ],
  'C03': [
   ('sep drop pop', 'sourcer/expressions/sep.py', "                    with out.IF(staging):\n                        out += staging.pop()\n", "                    pass\n"),
   ('sep require_separator empty', 'sourcer/expressions/sep.py', "Code(f'not {staging} or {saw_separator}')", "Code(f'{saw_separator}')"),
